@@ -8,7 +8,7 @@ From Coq Require Import ZArith NArith List Bool.
 From Texel Require Import Chess.Types Chess.Position Chess.PositionSpec Chess.PositionB Chess.BitBoard Chess.MoveGen Chess.Spec Chess.MoveGenWF
   Chess.BitBoardProofs Chess.RayProofs Chess.MagicSweep Chess.MagicProofs Chess.MoveGenProofs Chess.AttackProofs
   Chess.SliderProofs Chess.PawnProofs Chess.PseudoProofs Chess.MakeSpecProofs Chess.TryMoveProofs Chess.CastleProofs
-  Chess.LegalProofs Chess.ShortcutProofs Chess.IsLegalProofs Chess.CapturesProofs gen.BitBoardTables.
+  Chess.LegalProofs Chess.ShortcutProofs Chess.IsLegalProofs Chess.CapturesProofs Chess.NoDupProofs Chess.WfProofs gen.BitBoardTables.
 Import ListNotations.
 Local Open Scope N_scope.
 
@@ -264,20 +264,27 @@ Print Assumptions C01_captures_complete.
 (** * Full statements not (yet) proved: carried by the correspondence against the Spec
 
     Remaining gaps, each tied to the Spec on every run by the correspondence check:
-    - C01_nodup: no duplicates in pseudoLegalMoves (C01_legal_exact already gives the set and
-      the filter equation);
     - C01_isLegal: king moves when not in check (attack test with the king lifted from the
       occupancy) and the "moves along the king's line" exit; everything else is
       C01_isLegal_partial;
     - C01_evasions_complete / C01_captures_checks_complete: which pseudo-legal moves the two
       generators contain (validTargets; discovered-check masks); that removeIllegal keeps
       exactly the legal ones of whatever they contain is C01_removeIllegal_sublist;
-    - C01_givesCheck; C01_wf_preserved. *)
+    - C01_givesCheck. *)
 
-(** no duplicates in the generated list (C01_legal_exact gives the set and, by the filter
-    equation, reduces this to NoDup of pseudoLegalMoves) *)
-Definition C01_nodup_statement : Prop :=
-  forall p, WF p -> NoDup (pseudoLegalMoves p).
+(** C01_nodup: no duplicates in the pseudo-legal list of a well-formed position (distinct
+    (from, to, promotion) inside each block; blocks told apart by the piece on the from-square,
+    king step vs castling, pawn offset) *)
+Theorem C01_nodup : forall p, WF p -> NoDup (pseudoLegalMoves p).
+Proof. exact nodup_all. Qed.
+Print Assumptions C01_nodup.
+
+(** ... hence (filter equation of C01_legal_exact) none in the legal list removeIllegal computes:
+    "generated legal moves = legal moves of chess, without duplicates" *)
+Theorem C01_nodup_legal : forall zk p, emptyKeysZero zk -> WF p -> Consistent zk p ->
+  NoDup (snd (removeIllegal zk p (pseudoLegalMoves p))).
+Proof. exact nodup_legal. Qed.
+Print Assumptions C01_nodup_legal.
 
 Definition C01_isLegal_statement : Prop :=
   forall p m, WF p ->
@@ -296,5 +303,12 @@ Definition C01_captures_checks_complete_statement : Prop :=
 Definition C01_givesCheck_statement : Prop :=
   forall p m, WF p -> legal_spec (abs p) m -> givesCheck p m = gives_check_spec (abs p) m.
 
-Definition C01_wf_preserved_statement : Prop :=
-  forall zk p m, WF p -> legal_spec (abs p) m -> WF (fst (makeMove zk p m)).
+(** C01_wf_preserved: a legal move leads from a well-formed position to a well-formed position
+    (for any Zobrist tables; nothing is assumed about the hash / material fields): bitboards
+    agree with the board, one king each (a pseudo-move onto an occupied square attacks it, so
+    no king can be captured in an accepted position), no pawn on ranks 1/8, the side that moved
+    is not in check (= legality), castle flags kept only with king and rook at home
+    (castleSqMask), e.p. square only behind a pawn that just made a double step. *)
+Theorem C01_wf_preserved : forall zk p m, WF p -> legal_spec (abs p) m -> WF (fst (makeMove zk p m)).
+Proof. exact wf_preserved. Qed.
+Print Assumptions C01_wf_preserved.
